@@ -377,6 +377,9 @@ func (r *Run) Finish() int {
 	if s, err := strconv.Atoi(os.Getenv("VERIF_SEED")); err == nil {
 		seed = s
 	}
+	if r.Assumptions == nil {
+		r.Assumptions = []string{}
+	}
 	evd := map[string]interface{}{
 		"property_id": r.Property,
 		"tier":        r.Tier,
